@@ -18,7 +18,7 @@ ASSUME = [
     "TLC results hold for the stated small constants",
 ]
 
-MC_LINES = ["SPECIFICATION Spec", "PROPERTIES ExtractOK Progress", "CHECK_DEADLOCK FALSE"]
+MC_LINES = ["SPECIFICATION Spec", "PROPERTIES ExtractOK Progress Termination", "CHECK_DEADLOCK FALSE"]
 GEN_LINES = ["SPECIFICATION Spec", "ACTION_CONSTRAINT Emit", "CHECK_DEADLOCK FALSE"]
 UNITS = {"CB": 4, "CM": 8, "CO": 0, "CW": 0}
 BYTES = {"CB": 4, "CM": 6, "CO": 1, "CW": 1}
@@ -203,12 +203,12 @@ def check(ctx):
     return conclude(ctx, "model_checking", cov, violations, ASSUME)
 
 
-def _expect_reject(ctx, name, lines, want_line=None):
-    p = ctx.path("st_%s.ndjson" % name)
+def _expect_reject(ctx, name, lines, want_line=None, later_ok=False):
+    p = ctx.path("st_%s.ndjson" % name.split()[0])
     with open(p, "w") as f:
         f.write("\n".join(lines) + "\n")
     r = tlc_trace(ctx, "BitswapTrace.tla", "BitswapTrace.cfg", p)
-    ok = r is not None and (want_line is None or r == want_line)
+    ok = r is not None and (want_line is None or r == want_line or (later_ok and r > want_line))
     log("selftest %s -> %s%s" % (name, "rejected at line %s" % r if r else "ACCEPTED", "" if ok else "  (UNEXPECTED)"))
     return ok
 
@@ -231,12 +231,12 @@ def selftest(ctx):
     if tlc_trace(ctx, "BitswapTrace.tla", "BitswapTrace.cfg", ctx.path("good.ndjson")) is not None:
         raise ToolError("selftest baseline trace rejected")
 
-    def corrupt(pred, mut, name):
+    def corrupt(pred, mut, name, later_ok=False):
         for i, ln in enumerate(good):
             ev = json.loads(ln)
             if pred(ev):
                 mut(ev)
-                return _expect_reject(ctx, name, good[:i] + [json.dumps(ev, separators=(",", ":"))] + good[i + 1:], i + 1)
+                return _expect_reject(ctx, name, good[:i] + [json.dumps(ev, separators=(",", ":"))] + good[i + 1:], i + 1, later_ok)
         log("selftest %s: no suitable event" % name)
         return False
 
@@ -244,7 +244,7 @@ def selftest(ctx):
                   lambda e: e.update(cid_ok=False), "cert-cid-mismatch")
     ok &= corrupt(lambda e: e["e"] == "cert" and e["verdict"] == "deliver" and e["c"]["hash"] == "sha2_256" and e["c"]["mhlen"] == "true",
                   lambda e: e.update(verdict="drop"), "cert-valid-dropped")
-    ok &= corrupt(lambda e: e["e"] == "cert" and e["verdict"] == "drop" and e["c"]["pfx"] == "trailing",
+    ok &= corrupt(lambda e: e["e"] == "cert" and e["verdict"] == "drop" and e["c"]["pfx"] not in ("ok", "overflow"),
                   lambda e: e.update(verdict="deliver", cid_ok=True, data_ok=True), "cert-malformed-delivered")
     ok &= corrupt(lambda e: e["e"] == "extract" and e["some"] and len(e["batch"]) >= 2,
                   lambda e: e.update(batch=e["batch"][:-1]), "extract-block-lost")
@@ -253,7 +253,7 @@ def selftest(ctx):
     ok &= corrupt(lambda e: e["e"] == "msg" and len(e["r"]) >= 1,
                   lambda e: e.update(len=4 * 1024 * 1024 + 1), "msg-over-limit")
     ok &= corrupt(lambda e: e["e"] == "msg" and len(e["r"]) >= 1 and e["r"][0][0] < e["r"][0][1],
-                  lambda e: e.update(r=[[e["r"][0][0] + 1, e["r"][0][1]]] + e["r"][1:]), "msg-block-missing")
+                  lambda e: e.update(r=[[e["r"][0][0] + 1, e["r"][0][1]]] + e["r"][1:]), "msg-block-missing (detected at `done`)", later_ok=True)
     # harness fault injections: the same pipeline, the observation perturbed inside the harness
     for fault in ("cert-claimed-cid", "batch-drop-one", "batch-dup", "msg-oversize"):
         harness(ctx, "bitswap", base + ["--out", ctx.path("f.ndjson")], env={"VERIF_FAULT": fault})
@@ -280,7 +280,7 @@ def selftest(ctx):
         open(ctx.path("mut/" + f), "w").write(open(os.path.join(SPEC, f)).read())
     cfg = write_cfg(ctx, "neg_mut.cfg", dict(UNITS, Sizes={0, 2, 5}, MaxQ=3), MC_LINES + ["INVARIANTS PropInv"])
     r = tlc_mc(ctx, ctx.path("mut/BitswapMC.tla"), cfg, workers=2, expect_violation=True)
-    bad = "is violated" in r["out"]
+    bad = "is violated" in r["out"] or "was violated" in r["out"]
     log("selftest mutated Impl (oversized head kept) -> %s" % ("violated (as it must)" if bad else "NOT violated"))
     ok &= bad
     log("SELFTEST %s" % ("ok" if ok else "FAILED"))
